@@ -415,13 +415,13 @@ def observe_run(c, fe, opts, nan_at=None, np_seed=0):
     o['nfev'] = int(getattr(res, 'nfev', -1))
     o['success'] = bool(getattr(res, 'success', True))
     xr = np.ravel(np.asarray(res.x, dtype=float))
-    o['returned_point_faulted'] = bool(any(l[2] > 0 and len(l[0]) == len(xr) and np.array_equal(np.asarray(l[0]), xr) for l in log))
+    o['returned_point_faulted'] = bool(any(l[2] > 0 and len(l[0]) == len(xr) and np.array_equal(np.asarray(l[0]), xr, equal_nan=True) for l in log))
     o['last_eval_faulted'] = bool(log and log[-1][2] > 0)
     o['returned_fun_is_logged_value'] = bool(any(l[1] == fun for l in log))
-    _vx = [l[1] for l in log if len(l[0]) == len(xr) and np.array_equal(np.asarray(l[0]), xr)]
+    _vx = [l[1] for l in log if len(l[0]) == len(xr) and np.array_equal(np.asarray(l[0]), xr, equal_nan=True)]
     o['value_at_returned_x'] = (_vx[-1] if _vx else None)
-    o['returned_x_evaluated'] = bool(any(len(l[0]) == len(xr) and np.array_equal(np.asarray(l[0]), xr) for l in log))
-    o['returned_point_evaluated'] = bool(any(len(l[0]) == len(xr) and np.array_equal(np.asarray(l[0]), xr) and l[1] == fun for l in log))
+    o['returned_x_evaluated'] = bool(any(len(l[0]) == len(xr) and np.array_equal(np.asarray(l[0]), xr, equal_nan=True) for l in log))
+    o['returned_point_evaluated'] = bool(any(len(l[0]) == len(xr) and np.array_equal(np.asarray(l[0]), xr, equal_nan=True) and l[1] == fun for l in log))
     o['message'] = str(getattr(res, 'message', ''))[:120]
     o['values_after'] = values(problem)
     o['merit_after'] = penal(problem.sum_squared())
@@ -429,6 +429,7 @@ def observe_run(c, fe, opts, nan_at=None, np_seed=0):
     o['merit_after_oracle'] = penal(_m)
     o['raw_after'] = [raw_get(lens, vs) for vs in c.vars]
     o['dependents'] = dependents(c)
+    o['nan_z_after'] = [k for k, sf in enumerate(lens.surface_group.surfaces) if k >= 1 and not math.isfinite(fscalar(sf.geometry.cs.z))]
     o['stack_len'] = len(c.optimizer._x) if c.optimizer is not None else None
     return o
 
